@@ -46,9 +46,9 @@ Definition no_lost_wakeup_at (cap : N) (s : st) : bool :=
 
 (* a pending wake-up is delivered by the waking thread's own next (at most four) steps *)
 Definition delivered_r (cap : N) (s : st) : bool :=
-  implb (wake_pending_r s) (rnotif (pstep cap (pstep cap (pstep cap (pstep cap s))))).
+  implb (wake_pending_r s) (rnotif (pstep cap (pstep cap (pstep cap (pstep false cap s))))).
 Definition delivered_s (cap : N) (s : st) : bool :=
-  implb (wake_pending_s s) (snotif (cstep cap (cstep cap (cstep cap (cstep cap s))))).
+  implb (wake_pending_s s) (snotif (cstep cap (cstep cap (cstep cap (cstep false cap s))))).
 
 Definition p_enabled (y : sys) : bool :=
   match ppc (y_st y) with Idle => match y_pp y with [] => false | _ => true end | Done => false | _ => true end.
@@ -63,14 +63,14 @@ Fixpoint explore (fuel : nat) (cap : N) (y : sys) : bool :=
   | S f =>
     let s := y_st y in
     no_lost_wakeup_at cap s && delivered_r cap s && delivered_s cap s && negb (bad s)
-    && (if p_enabled y then explore f cap (sys_step cap y true) else true)
-    && (if c_enabled y then explore f cap (sys_step cap y false) else true)
+    && (if p_enabled y then explore f cap (sys_step false cap y true) else true)
+    && (if c_enabled y then explore f cap (sys_step false cap y false) else true)
   end.
 
 (* run a prefix sequentially (producer ops, then consumer ops), then explore *)
 Definition after (cap : N) (pp0 : list pop_t) (cp0 : list cop_t) : st :=
-  let y1 := fold_left (sys_step cap) (repeat true 200) (mkSys (init cap) pp0 []) in
-  let y2 := fold_left (sys_step cap) (repeat false 200) (mkSys (y_st y1) [] cp0) in
+  let y1 := fold_left (sys_step false cap) (repeat true 200) (mkSys (init cap) pp0 []) in
+  let y2 := fold_left (sys_step false cap) (repeat false 200) (mkSys (y_st y1) [] cp0) in
   y_st y2.
 
 Definition scenario (cap : N) (pp0 : list pop_t) (cp0 : list cop_t) (pp : list pop_t) (cp : list cop_t) : bool :=
@@ -91,6 +91,6 @@ Proof. vm_compute; reflexivity. Qed.
    Sender: the whole of close including dealloc; Receiver: fetch_or on the freed header. *)
 Definition uaf_schedule : list bool := repeat false 5 ++ repeat true 18 ++ [false].
 Lemma close_use_after_free :
-  let s := y_st (exec 2 uaf_schedule [ODropS] [ODropR]) in
+  let s := y_st (exec false 2 uaf_schedule [ODropS] [ODropR]) in
   uaf s = true /\ freed s = true /\ ppc s = Done /\ cpc s = Wk KClose2 W2.
 Proof. vm_compute. repeat split; reflexivity. Qed.
